@@ -169,4 +169,60 @@ theorem parseField_init (env : Env) (F : Nat) (mods : Mods) (dtype : DType) (pq 
         simp only [bind, interp_bind, interp, hstack, htop, hg, Block.view, hc', Bool.false_or, decide_false, Bool.false_eq_true,
           ↓reduceIte, hia, hib, hic, hcvu, hcv, pure, interp_getDoxygenAfter]
 
+/-- `_parse_field` on a bit-field `: width` in a class body (no array, no initializer): the width is
+    the written decimal number -/
+theorem parseField_bits (env : Env) (F : Nat) (mods : Mods) (dtype : DType) (pq : PQName) (template : Option TemplateDecl)
+    (doxygen : Option String) (location : LocRef) (w : World) (colon num tm : Tok) (bc bn b1 : Buf)
+    (blk : Block) (rest : List Block) (hstack : w.stack = blk :: rest) (hk : blk.hdr.kind = .cls) (nm : Option String)
+    (hname : fieldName true pq = some nm)
+    (htc : tokenEofOk env.cfg w.buf = .ok (some colon, bc)) (hc : colon.type = ":")
+    (htn : tokenEofOk env.cfg bc = .ok (some num, bn)) (hn : num.type = "INT_CONST_DEC") (hdig : allDigits num.value = true)
+    (htok : tokenEofOk env.cfg bn = .ok (some tm, b1)) (htm : [",", ";"].contains tm.type = true) :
+    ∃ (w5 : World) (t' : Tok) (bx : Buf) (dox : Option String),
+      SameParse { w with stack := { blk with loc := location } :: rest } w5 ∧
+      tokenEofOk env.cfg w5.buf = .ok (some t', bx) ∧ SigEq b1 bx ∧ t'.type = tm.type ∧ t'.value = tm.value ∧
+      (∀ d, doxygen = some d → dox = some d) ∧
+      interp env (parseField F mods dtype (some pq) template doxygen location false) w =
+        interp env (fieldEmit mods ({ blk with loc := location } : Block).view dtype (some pq) template nm
+          (some num.value.toNat!) none dox false) w5 := by
+  have htop := interp_getTop env { w with stack := { blk with loc := location } :: rest } { blk with loc := location } rest rfl
+  obtain ⟨wa, ta, hia, hsa, hta, htya, _⟩ := step_tokenIf_miss env ["["] { w with stack := { blk with loc := location } :: rest } colon bc htc (by rw [hc]; decide)
+  obtain ⟨wb, cb, hib, hbb, hsb, _, _⟩ := step_tokenIf_hit env [":"] wa ta bc hta (by rw [htya, hc]; decide)
+  obtain ⟨wc, cc, hic, hbc, hsc, _, hvc⟩ := step_mustBe env ["INT_CONST_DEC"] wb num bn (by rw [hbb]; exact htn) (by rw [hn]; decide)
+  have htm' : tm.type ≠ "=" ∧ tm.type ≠ "{" := by
+    simp only [List.contains_cons, List.contains_nil, Bool.or_false, Bool.or_eq_true, beq_iff_eq] at htm
+    rcases htm with h | h <;> (rw [h]; exact ⟨by decide, by decide⟩)
+  obtain ⟨wd, td, hid, hsd, htd, htyd, hvd⟩ := step_tokenIf_miss env ["="] wc tm b1 (by rw [hbc]; exact htok) (by simp [htm'.1])
+  obtain ⟨we, te, hie, hse, hte, htye, hve⟩ := step_tokenIf_miss env ["{"] wd td b1 htd (by simp [htyd, htm'.2])
+  have hsame := (((hsa.trans hsb).trans hsc).trans hsd).trans hse
+  have htyT : te.type = tm.type := by rw [htye, htyd]
+  have hvT : te.value = tm.value := by rw [hve, hvd]
+  obtain ⟨n, sp, hg, hcase⟩ := fieldName_cases _ pq nm hname
+  have hdig' : allDigits cc.value = true := by rw [hvc]; exact hdig
+  have hpb : interp env parseBitfield wb = (wc, .ok num.value.toNat!) := by
+    unfold parseBitfield
+    simp only [bind, interp_bind, hic, hvc, hdig, ↓reduceIte, pure, interp]
+  obtain ⟨hl, rfl⟩ : ¬ pq.segments.length > 1 ∧ nm = some n := by
+    rcases hcase with ⟨_, hl, h⟩ | ⟨hc', _⟩
+    · exact ⟨hl, h⟩
+    · cases hc'
+  cases doxygen with
+  | some d =>
+    refine ⟨we, te, b1, some d, hsame, hte, SigEq.refl _, htyT, hvT, fun _ h => h, ?_⟩
+    unfold parseField P.setLoc
+    simp only [bind, interp_bind, interp, hstack, htop, hg, Block.view, hk, Bool.false_or, decide_true, ↓reduceIte, hl,
+      hia, hib, Bool.not_true, Bool.false_eq_true, hpb, hid, hie, pure]
+  | none =>
+    have hsig := getDoxygenAfter_sigEq env.mcRe we.buf
+    rcases tokenEofOk_sigEq env.cfg hsig.symm with ⟨e, he, _⟩ | ⟨o, bA, bB, hA, hB, hAB⟩
+    · rw [hte] at he; cases he
+    · rw [hte] at hA
+      injection hA with hA; injection hA with ho hbA
+      subst ho; subst hbA
+      refine ⟨{ we with buf := (getDoxygenAfter env.mcRe we.buf).2 }, te, bB, (getDoxygenAfter env.mcRe we.buf).1,
+        hsame.trans (SameParse.setBuf we _), hB, hAB, htyT, hvT, (fun _ h => by cases h), ?_⟩
+      unfold parseField P.setLoc
+      simp only [bind, interp_bind, interp, hstack, htop, hg, Block.view, hk, Bool.false_or, decide_true, ↓reduceIte, hl,
+        hia, hib, Bool.not_true, Bool.false_eq_true, hpb, hid, hie, pure, interp_getDoxygenAfter]
+
 end Cxx
